@@ -105,7 +105,7 @@ func newGoField(f reflect.StructField) (*GoField, error) {
 	if err != nil {
 		return nil, err
 	}
-	conv, err := fieldGoType.GetConverter()
+	conv, err := fieldGoType.getConverter() // newGoType holds goTypeMutex
 	if err != nil {
 		return nil, err
 	}
